@@ -114,6 +114,9 @@ prop("C03", NEC + "Clauses: each of the 27 build/semantic message kinds has an e
      [{"rule": "VARIANTS", "floor": 54}, {"rule": "MESSAGE-SITE", "floor": 32},
       {"rule": "FRAME", "filter": files(*FRONT_FRAME), "floor": 212},
       {"rule": "TRAVERSE", "filter": tag("errors", "analyze", "build"), "floor": 73}, {"rule": "EQ-COMPLETE", "floor": 43},
+      # every document a server holds was reached by edits: "no diagnostic for a rule it does not violate" needs the old build/semantic
+      # messages of reused nodes to be stripped everywhere (traverse_mut reaches every AstInfo) before they are computed again
+      {"rule": "TRAVERSE", "filter": tag("traverse"), "floor": 60}, {"rule": "STRIP-SET", "floor": 4},
       {"rule": "SCOPE-ORDER", "filter": tag("typescope", "semantic"), "floor": 5}, {"rule": "NOT-A-KIND", "floor": 3},
       {"rule": "KEYWORD-BOUNDARY", "filter": nottag("charvalue"), "floor": 3}, {"rule": "EMPTY-RANGE-GUARD", "filter": tag("diagstart"), "floor": 1},
       {"rule": "ERR-FRAME", "filter": tag("frame"), "floor": 4},
@@ -129,13 +132,17 @@ prop("C04", NEC + "Clauses: shape of the precedence-climbing parser (levels, loo
       {"rule": "NOCONSUME", "filter": tag("take"), "floor": 4}, {"rule": "DOC-IN-RANGE", "floor": 5},
       {"rule": "FRAME", "filter": files("parser.rs", "utility.rs"), "floor": 3}, {"rule": "INFO-EXTENT", "floor": 1},
       {"rule": "SYNC-SETS", "floor": 14},
-      {"rule": "ERR-FRAME", "filter": tag("frame"), "floor": 4}])
+      {"rule": "ERR-FRAME", "filter": tag("frame"), "floor": 4},
+      # a valid program gets no syntax diagnostic only if the parser is handed the program's tokens: a keyword is a whole word
+      {"rule": "KEYWORD-BOUNDARY", "filter": nottag("charvalue"), "floor": 3}])
 
 prop("C05", NEC + "Clauses: the five synchronisation sets are nested and all contain proc/type/eof, each error "
      "variant recovers with its own set (SYNC-SETS); failed token parsers and expect() hand back the original "
      "input, and so do the five recovery parsers when they find nothing to ignore; declaration keywords are consumed only at declaration level (NOCONSUME).",
      [{"rule": "SYNC-SETS", "floor": 14}, {"rule": "NOCONSUME", "filter": tag("tag", "expect", "kw", "recover"), "floor": 45},
-      {"rule": "ERR-FRAME", "filter": tag("frame"), "floor": 4}])
+      {"rule": "ERR-FRAME", "filter": tag("frame"), "floor": 4},
+      # the damage arrives as an edit: "keeps its symbol-table entry" then needs the table to be rebuilt from the tree of the final text
+      {"rule": "STRIP-REBUILD", "floor": 2}, {"rule": "REBUILD", "floor": 1}])
 
 prop("C06", NEC + "Clauses: alt(..) order vs. prefix relation of static lexemes (longest match), every static token "
      "lexed exactly once through the macro of its class, class order, exactly one Eof; token ranges are the ranges of the "
@@ -166,7 +173,9 @@ prop("C08", NEC + "Clauses: no content change is discarded, batched changes are 
      "no byte distance is computed from terminator-stripped lines; the changes of a notification are applied in the order they were "
      "converted in (UPDATE-ORDER).",
      [{"rule": "TEXT-SYNC", "floor": 15}, {"rule": "LEN-UNITS", "floor": 3}, {"rule": "POS-CONV", "floor": 22},
-      {"rule": "UPDATE-ORDER", "floor": 3}])
+      {"rule": "UPDATE-ORDER", "floor": 3},
+      # "any range the server reports for a token addresses that token": semantic tokens report ranges relative to the previous token
+      {"rule": "SEMTOK-PAIRING", "floor": 9}])
 
 prop("C09", NEC + "Clauses: operators are re-printed as the lexeme they were lexed from (T4); every Format impl prints "
      "every child that holds an identifier, literal or operator and every Error variant (TRAVERSE); every token slice "
